@@ -496,6 +496,10 @@ def find_function(relpath, qual):
         node = found
     seg = ast.get_source_segment(src, node)
     SHA_SEEN[f"{relpath}::{qual}"] = hashlib.sha256(seg.encode()).hexdigest()[:16]
+    if isinstance(node, ast.FunctionDef) and node.decorator_list:
+        # a decorator can change what a call does (caching, wrapping): the body alone is then not the function
+        SHA_SEEN[f"{relpath}::{qual}"] += "+decorated"
+        raise Unsupported(f"{qual} is decorated ({', '.join(ast.unparse(d) for d in node.decorator_list)}): outside the verified subset")
     if isinstance(node, ast.FunctionDef):
         node = canonical_locals(node, f"{relpath}::{qual}")
         node = statement_numbering(node)
